@@ -29,7 +29,7 @@ TABLE = {
     'C04': ('fault_enumeration', 'fault injection at every evaluation step x exception catalogue x default/skip_exc/glom_debug matrix, oracle on class/args/identity',
             'For each generated spec tree the fault-free run lists every callable invocation; a fault from a catalogue of exception classes is planted '
             'at each in turn and the object leaving glom() is checked for class, args, GlomError-ness, identity of default / debug propagation.',
-            'Faults are raised from user callables and from provoked glom failures; absorbing constructs are modelled for Coalesce only.', '3 C04'),
+            'Faults are raised from user callables, from the target (accessors, iterators) and from provoked glom failures; absorbing constructs are modelled for Coalesce only.', '3 C04'),
     'C05': ('fault_enumeration', 'EvalTracer (wrapper on the recursion function) records the executed evaluation tree; error text parsed and compared with it',
             'A single failure is planted at every leaf position of generated spec shapes; the message is parsed into trace lines and checked against the '
             'frames actually open when the error was raised (ancestors in order, target of the failing frame, original error line, attempted branches).',
@@ -53,7 +53,7 @@ TABLE = {
     'C10': ('exploration', 'exhaustive truth-table enumeration against the boolean denotation; predicate call log for short-circuit',
             'Combinator trees to depth 3 are evaluated on targets enumerating all 2^n truth assignments of their atoms; pass/fail, returned value, error class and '
             'the order/set of predicates invoked are compared with the boolean reading; all Check keyword combinations are enumerated.',
-            'Atoms are mutually comparable values; Check validators are total.', '3 C10'),
+            'Atoms are mutually comparable values; Check validators return booleans, other falsy values (which pass) or raise (which fails the Check).', '3 C10'),
     'C11': ('fault_enumeration', 'twin targets: glom edits one, plain Python the other; graph isomorphism; deep snapshot for atomicity under injected assignment faults',
             'All addressing styles x targets x missing factories x faults at each segment; success compared by isomorphism with the plain-Python edit, failure by an '
             'unchanged structure+identity snapshot; factory call counts and wildcard assignment order observed through logging containers.',
@@ -91,7 +91,7 @@ TABLE = {
     'C20': ('exploration', 'deterministic scheduler enumerating interleavings at user-callable yield points + line-level yield injection stress + scope-root ownership monitor',
             'Programs touching all shared state are run under every interleaving of 2-3 threads with up to 4 yield points, under free-running stress with sys.monitoring '
             'LINE yield injection, and re-entrantly; each outcome (value / error class / trace text) must equal the isolated outcome and no frame may see a foreign scope root.',
-            'Exhaustive only at callable granularity; finer interleavings are sampled. Concurrent register() is out of scope.', '3 C20'),
+            'Exhaustive only at callable granularity; finer interleavings are sampled. Re-entry from lookup hooks runs in a child process with hang diagnosis. Concurrent register() is out of scope.', '3 C20'),
 }
 
 
